@@ -21,6 +21,7 @@ mod scen_slice;
 mod scen_stat;
 mod scenarios;
 mod source;
+mod watch;
 
 use crate::core::Tier;
 
@@ -30,7 +31,7 @@ fn main() {
     let all = scenarios::all();
     let refs: Vec<&dyn driver::Scenario> = all.iter().map(|b| b.as_ref()).collect();
     let code = match args.get(1).map(|s| s.as_str()) {
-        Some("check") => {
+        Some(cmd @ ("check" | "check-child")) => {
             let id = args.get(2).cloned().unwrap_or_default();
             let tier = match std::env::var("VERIF_TIER").ok().as_deref().or(args.get(3).map(|s| s.as_str())) {
                 Some("thorough") => Tier::Thorough,
@@ -38,7 +39,14 @@ fn main() {
             };
             match refs.iter().find(|s| s.prop() == id) {
                 Some(sc) => {
-                    driver::run_check(*sc, tier).exit_code()
+                    if cmd == "check" && std::env::var("DLTSIM_NO_SUPERVISOR").is_err() {
+                        // the check itself runs in a child process (crash / hang containment)
+                        driver::supervise_check(*sc, tier)
+                    } else {
+                        watch::limit_memory();
+                        watch::start_watchdog();
+                        driver::run_check(*sc, tier).exit_code()
+                    }
                 }
                 None => {
                     println!("HARNESS-ERROR: no check for property {:?}", id);
@@ -46,7 +54,17 @@ fn main() {
                 }
             }
         }
-        Some("replay") => driver::run_replay(args.get(2).map(|s| s.as_str()).unwrap_or(""), &refs),
+        Some("replay") => driver::supervise_replay(args.get(2).map(|s| s.as_str()).unwrap_or("")),
+        Some("replay-child") => {
+            watch::limit_memory();
+            watch::limit_cpu(driver::single_case_cpu_limit_s());
+            driver::run_replay(args.get(2).map(|s| s.as_str()).unwrap_or(""), &refs)
+        }
+        Some("probe") => {
+            watch::limit_memory();
+            watch::limit_cpu(driver::single_case_cpu_limit_s());
+            driver::run_probe(&args[2..], &refs)
+        }
         Some("selftest") => scenarios::selftest(args.get(2).map(|s| s.as_str()).unwrap_or(""), &refs),
         _ => {
             println!("usage: dltsim check <ID> <quick|thorough> | replay <file> | selftest determinism");
